@@ -111,6 +111,8 @@ class Ctx:
         sc = self.scenario
         self.unreplayable = False
         extra = list(sc.extra) if sc else []
+        if sc is not None and getattr(sc, "extra_fn", None):
+            extra += list(sc.extra_fn())  # constraints that depend on everything recorded up to now
         try:
             extra += _overlap_bools(self.E.apps)
         except Exception as ex:  # noqa: BLE001
